@@ -7,8 +7,8 @@
    (Gen/DelegGen.v).  `lc` is the verdict function of the Labels validators: every statement holds for
    every validator (the same one is applied when a Labels object is built and when it is decoded). *)
 From Coq Require Import List ZArith NArith Bool String Permutation.
-From FIM Require Import Base.Str Gen.DelegGen Model.Deleg12 Model.Pools12
-     Proofs.Deleg12Enc Proofs.Deleg12Pools Proofs.Deleg12Regroup Proofs.Deleg12Annotate Proofs.Deleg12Main.
+From FIM Require Import Base.Str Base.Corr Gen.DelegGen Model.Deleg12 Model.Pools12 Model.Pools12H
+     Proofs.Deleg12Enc Proofs.Deleg12Pools Proofs.Deleg12Regroup Proofs.Deleg12Annotate Proofs.Deleg12Main Proofs.Deleg12Hist.
 Import ListNotations.
 
 (* ------------------------------------------------------------------------------------------------ *)
@@ -237,6 +237,45 @@ Proof. exact annotate_readback_ok. Qed.
 Print Assumptions C12_annotate_readback.
 
 (* ------------------------------------------------------------------------------------------------ *)
+(* ONE Pools object under any history (Model/Pools12H.v: heap of shared Pool objects, registry, index)  *)
+(* ------------------------------------------------------------------------------------------------ *)
+(* every history keeps the registry pointing at existing objects, each under its own pool id *)
+Theorem C12_registry_valid_after_any_history : forall ops st, reg_valid st ->
+  reg_valid (hfinal st ops) /\ st_type (hfinal st ops) = st_type st.
+Proof. exact hrun_valid. Qed.
+Print Assumptions C12_registry_valid_after_any_history.
+
+(* build_index_by_delegation_id from ANY state -- whatever index an earlier call left behind, whatever was edited,
+   re-delegated or replaced since --: the new index is the index of the CURRENT registry; it changes nothing else *)
+Theorem C12_reindex_is_index_of_registry : forall st i0, reg_valid st -> build_index (reg_pools st) = Ok i0 ->
+  exists idx, st_index (fst (hstep st HIndex)) = Some idx /\ resolve (st_heap (fst (hstep st HIndex))) idx = i0 /\
+              st_heap (fst (hstep st HIndex)) = st_heap st /\ st_reg (fst (hstep st HIndex)) = st_reg st /\
+              st_type (fst (hstep st HIndex)) = st_type st.
+Proof. exact reindex_is_index_of_registry. Qed.
+Print Assumptions C12_reindex_is_index_of_registry.
+
+Theorem C12_reindex_rejects_like_registry : forall st e, reg_valid st -> build_index (reg_pools st) = Err e ->
+  snd (hstep st HIndex) = VErr (exn_name e).
+Proof. exact reindex_rejects. Qed.
+Print Assumptions C12_reindex_rejects_like_registry.
+
+(* the regrouping identity after ANY history of Pool(...), setters on any object, add_pool (incl. replacing a
+   pool), build_index, generate, regroup: re-index, generate, read back = the pools the registry holds now *)
+Theorem C12_regroup_after_any_history : forall ty ops,
+  let st := hfinal (init_state ty) ops in
+  pools_wf ty (reg_pools st) = true ->
+  exists P', hregroup (fst (hstep st HIndex)) = Ok P' /\ pools_equiv P' (reg_pools st).
+Proof. exact regroup_after_any_history. Qed.
+Print Assumptions C12_regroup_after_any_history.
+
+Theorem C12_conflict_after_any_history : forall ty ops,
+  let st := hfinal (init_state ty) ops in
+  forallb (pool_ok ty) (reg_pools st) = true -> no_conflict (reg_pools st) = false ->
+  hgenerate (fst (hstep st HIndex)) = Err EDelegation.
+Proof. exact conflict_after_any_history. Qed.
+Print Assumptions C12_conflict_after_any_history.
+
+(* ------------------------------------------------------------------------------------------------ *)
 (* non-vacuity: concrete instances of the hypotheses                                                 *)
 (* ------------------------------------------------------------------------------------------------ *)
 
@@ -278,5 +317,20 @@ Example C12_nonvacuous_conflict :
   (exists idx, build_index ex_conflict = Ok idx /\ generate TLab (Some idx) = Err EDelegation).
 Proof.
   split; [vm_compute; reflexivity|]. split; [vm_compute; reflexivity|].
+  eexists. split; vm_compute; reflexivity.
+Qed.
+
+(* a history that leaves a STALE index behind: two pools indexed, then pool1 moved to delegation id del9 and pool2
+   replaced by a new object; the old index still lists pool1 under del1 and the old pool2 object; after re-indexing
+   the regroup identity holds for the registry as it is now *)
+Example C12_nonvacuous_history :
+  let st := hfinal (init_state TLab) ex_history in
+  pools_wf TLab (reg_pools st) = true /\
+  option_map (fun i => v_index (resolve (st_heap st) i)) (st_index st)
+    = Some (VL [VL [VS (S"del1"); VL [VS (S"pool1")]]; VL [VS (S"del2"); VL [VS (S"pool2")]]]) /\
+  map p_deleg (reg_pools st) = [Some (S"del9"); Some (S"del2")] /\
+  (exists P', hregroup (fst (hstep st HIndex)) = Ok P' /\ List.length P' = 2%nat).
+Proof.
+  split; [vm_compute; reflexivity|]. split; [vm_compute; reflexivity|]. split; [vm_compute; reflexivity|].
   eexists. split; vm_compute; reflexivity.
 Qed.
